@@ -38,7 +38,8 @@ void termination_lp_init(struct lp_ctx *lp)
 {
 	bool term = global_config.committed(lp - lps, lp->state_pointer);
 	lps_to_end += !term;
-	lp->termination_t = term * SIMTIME_MAX;
+	// a negative value means "not terminated" (as in the serial runtime): 0 is a legit termination time
+	lp->termination_t = term ? SIMTIME_MAX : -1.0;
 }
 
 /**
@@ -47,12 +48,12 @@ void termination_lp_init(struct lp_ctx *lp)
  */
 void termination_on_msg_process(struct lp_ctx *lp, simtime_t msg_time)
 {
-	if(lp->termination_t)
+	if(lp->termination_t >= 0)
 		return;
 
 	bool term = global_config.committed(lp - lps, lp->state_pointer);
 	max_t = term ? max(msg_time, max_t) : max_t;
-	lp->termination_t = term * msg_time;
+	lp->termination_t = term ? msg_time : -1.0;
 	lps_to_end -= term;
 }
 
@@ -104,7 +105,9 @@ void RootsimStop(void)
 void termination_on_lp_rollback(struct lp_ctx *lp, simtime_t msg_time)
 {
 	simtime_t old_t = lp->termination_t;
+	if(old_t < 0) // not terminated, nothing to undo
+		return;
 	bool keep = old_t < msg_time || old_t == SIMTIME_MAX;
-	lp->termination_t = keep * old_t;
+	lp->termination_t = keep ? old_t : -1.0;
 	lps_to_end += !keep;
 }
